@@ -30,7 +30,7 @@ def shape(spec, gids, feats=None, trace=None, textdir=0):
     for pi,P in enumerate(spec['passes']):
         if pi>0 and P['type']=='pos' and spec['passes'][pi-1]['type']=='sub': budget=[len(stream)*64]
         if not stream: break
-        pre=P.get('pre',0); rules=P['rules']
+        rules=P['rules']; rpre=[r.get('pre',P.get('pre',0)) for r in rules]; maxpre=max(rpre); minpre=min(rpre)
         pats=[[set(spec['classes'][c]) for c in r['pat']] for r in rules]
         i=0
         hw=stream[1] if len(stream)>1 else None; hp=False; maxloop=max(P.get('maxloop',5),1); lc=maxloop
@@ -38,11 +38,11 @@ def shape(spec, gids, feats=None, trace=None, textdir=0):
             pass
         while i is not None and 0<=i<len(stream):
             fired=None
-            if i>=pre:
-                cands=[ri for ri,p in enumerate(pats) if i-pre+len(p)<=len(stream) and all(stream[i-pre+j].gid in p[j] for j in range(len(p)))]
+            if i>=minpre:
+                cands=[ri for ri,p in enumerate(pats) if rpre[ri]<=min(maxpre,i) and i-rpre[ri]+len(p)<=len(stream) and all(stream[i-rpre[ri]+j].gid in p[j] for j in range(len(p)))]
                 cands.sort(key=lambda ri:(-len(pats[ri]),ri))
                 for ri in cands:
-                    r=rules[ri]; L=len(pats[ri]); rs=stream[i-pre:i-pre+L]
+                    r=rules[ri]; L=len(pats[ri]); pre=rpre[ri]; rs=stream[i-pre:i-pre+L]
                     for s in rs: s.gid_in=s.gid
                     ok=True
                     for k,e in enumerate(r.get('cons',[None]*L)):
@@ -54,7 +54,7 @@ def shape(spec, gids, feats=None, trace=None, textdir=0):
                 if stop: break
                 continue
             hp=False
-            r=rules[fired]; L=len(pats[fired]); rs=stream[i-pre:i-pre+L]   # input snapshot (objects) ; gid_in holds input glyph
+            r=rules[fired]; L=len(pats[fired]); pre=rpre[fired]; rs=stream[i-pre:i-pre+L]   # input snapshot (objects) ; gid_in holds input glyph
             if trace is not None: trace.append((pi,fired,i))
             snap=[copy.copy(s) for s in rs]; rs_live=list(rs)
             for s_,c_ in zip(snap,rs): s_.user=list(c_.user)
